@@ -74,7 +74,7 @@ def run(ctx: core.Ctx) -> int:
         label = json.dumps({"git-ignored-config": variant, "i1": g["i1"], "i2": g["i2"], "i3": g["i3"], "inv": sorted(g["inv"])})
         cases.append({"tid": len(cases) + 1, "p": p, "checks": ALL, "label": label, "seed": ctx.seed + len(cases), "git": True,
                       "raw_files": dict(raw, **{".gitignore": gi})})
-    events = core.pmap(projmodel.run_project_case, cases, chunksize=16)
+    events = ctx.pmap(projmodel.run_project_case, cases, chunksize=16)
     for ev in events[:: max(1, n_lint // 3)][:3] + events[-1:]:
         o = ev["obs"]
         ctx.samples.append({"case": json.loads(ev["label"]), "observed": {k: o[k] for k in o if k != "files"}})
